@@ -46,7 +46,8 @@ struct ItemSpec {
     retname: Option<String>,
     ret: Option<String>,
     loops: Vec<(String, Vec<String>)>,
-    loop_firsts: Vec<(String, Vec<String>)>, // ghost text as first statement of the loop body (anchor = loop prefix)
+    loop_firsts: Vec<(String, Vec<String>)>,
+    optional_loops: Vec<String>,         // `//@loop? "prefix"`: invariants skipped when the loop is gone // ghost text as first statement of the loop body (anchor = loop prefix)
     befores: Vec<(String, Vec<String>)>,
     afters: Vec<(String, Vec<String>)>,
     closures: Vec<(String, Vec<String>)>, // closure anchor (ordinal `N` or key `callee#k`): text spliced between `|..|` and body
@@ -350,7 +351,8 @@ fn parse_template(text: &str) -> Vec<Result<String, ItemSpec>> {
                             spec.loop_firsts.push((unquote(arg), Vec::new()));
                             sec = Sec::LoopFirst(spec.loop_firsts.len() - 1);
                         }
-                        "loop" => {
+                        "loop" | "loop?" => {
+                            if cmd == "loop?" { spec.optional_loops.push(unquote(arg)); }
                             spec.loops.push((unquote(arg), Vec::new()));
                             sec = Sec::Loop(spec.loops.len() - 1);
                         }
@@ -1011,6 +1013,9 @@ fn hint_edits(spec: &ItemSpec, src: &str, c: &rewrite::Collector, edits: &mut Ve
             .iter()
             .filter(|(s, e, _)| norm(&src[*s..*e]).starts_with(&norm(anchor)))
             .collect();
+        if hits.is_empty() && spec.optional_loops.contains(anchor) {
+            continue; // the loop is gone: the function is verified without the invariant
+        }
         if hits.len() != 1 {
             die(&format!("lost anchor: loop `{}` in {} matches {} loops", anchor, spec.selector, hits.len()));
         }
